@@ -782,7 +782,9 @@ impl FrontendInternal {
         queue_index: usize,
         fd: RawFd,
     ) -> VhostUserResult<VhostUserMsgHeader<FrontendReq>> {
-        if queue_index as u64 >= self.max_queue_num {
+        // The message only has room for an 8-bit vring index (see below), a bigger one would be
+        // taken for the invalid FD flag or for another vring by the backend.
+        if queue_index as u64 >= self.max_queue_num || queue_index > 0xff {
             return Err(VhostUserError::InvalidParam);
         }
         self.check_state()?;
